@@ -3,6 +3,7 @@ import contracts.interleaved as ci
 from pyvc.report import run_contracts
 from props.common import select
 from props import C04
+from replay import interleaved as rp
 
 LEVEL = "proof"
 # (1) the constructor stores a checkpoint sigma(k) on an epoch boundary computed with the loop's own geometry,
@@ -16,7 +17,8 @@ MINE = [r"__init__:(ensures|lemma|noraise)", r"loop0:inv\d+:(entry|preserved)", 
 def run(res):
     run_contracts(res, [ci.TRAINING_LOOP, ci.ITER, ci.INIT], ci.CONTRACTS)
     select(res, MINE)
-    C04.bounded(res, 6000 if res.tier == "thorough" else 600)
+    C04.bounded(res, 6000 if res.tier == "thorough" else 600, rp.check_c06)
 
 
-replay = C04.replay
+def replay(ob):
+    return C04.replay(ob, rp.check_c06)
